@@ -375,4 +375,6 @@ def run(ctx):
     calls = [c for c in walk_own(cv.node) if isinstance(c, ast.Call) and call_name(c) == "external_choices_to_csv"]
     r7.check(len(calls) == 1 and guard_texts(calls[0], stop=cv.node) == ["has_external_choices(json_struct=pyxform_data)"], "convert:itemsets", "itemsets are produced iff the form uses an external select", cv.loc())
     rules.append(r7)
+    from .c13 import cell_cleaning_rule
+    rules.append(cell_cleaning_rule(ctx, "C09", "C09.R8"))
     return rules
